@@ -18,6 +18,7 @@ import (
 	"go/types"
 	"os"
 	"sort"
+	"strings"
 
 	"golang.org/x/tools/go/ssa"
 )
@@ -361,6 +362,11 @@ func ruleGateTable(c *Ctx, prop string) {
 	case len(bads) > 0:
 		for i, b := range bads {
 			if i < 6 {
+				if strings.HasSuffix(b, "could not be read") {
+					// not a verdict on the gate: the walk cannot establish what the operator's tables are
+					c.undecided("R38", fmt.Sprintf("R38:gate-table#%d", i+1), site, b)
+					continue
+				}
 				c.violate("R38", fmt.Sprintf("R38:gate-table#%d", i+1), site, b)
 			}
 		}
